@@ -312,4 +312,28 @@ theorem FollowYear_weeksel (X : List Char) : FollowYear (' ' :: X) := FollowYear
 
 theorem NoDigit_weeksel (X : List Char) : NoDigit (' ' :: X) := NoDigit_space X
 
+/-! ### the follow contexts of a week selector -/
+
+theorem FollowWeek_nil : FollowWeek [] :=
+  ⟨fun _ h => (by cases h), fun _ h => (by cases h), NoDigit_nil, fun _ _ h => (by cases h)⟩
+
+/-- a head that is neither `-`, `/`, `,` nor a digit: a space, `:`, `;`, `|` -/
+theorem FollowWeek_of_head (c : Char) (r : List Char) (hc : c ≠ '-' ∧ c ≠ '/' ∧ c ≠ ',')
+    (hd : ¬ ('0' ≤ c ∧ c ≤ '9')) : FollowWeek (c :: r) := by
+  refine ⟨?_, ?_, NoDigit_cons c r hd, ?_⟩
+  · intro _ h; cases h; exact absurd rfl hc.1
+  · intro _ h; cases h; exact absurd rfl hc.2.1
+  · intro _ _ h; cases h; exact absurd rfl hc.2.2
+
+theorem FollowWeek_space (r : List Char) : FollowWeek (' ' :: r) :=
+  FollowWeek_of_head ' ' r (by decide) (by decide)
+
+theorem FollowWeek_colon (r : List Char) : FollowWeek (':' :: r) :=
+  FollowWeek_of_head ':' r (by decide) (by decide)
+
+/-- the additional-rule separator `, ` -/
+theorem FollowWeek_comma_space (r : List Char) : FollowWeek (',' :: ' ' :: r) :=
+  ⟨fun _ h => (by cases h), fun _ h => (by cases h), NoDigit_cons ',' _ (by decide),
+    by intro c r' e; cases e; decide⟩
+
 end OH.Proofs.Sent
